@@ -27,6 +27,7 @@ fn main() {
         flush_pct: *rng.pick(&[0, 10, 30]),
         commit_pct: *rng.pick(&[5, 15, 30]),
         dup_pct: *rng.pick(&[0, 10]),
+        dup_near_pct: *rng.pick(&[0, 20]),
         noncausal_pct: *rng.pick(&[0, 5]),
         ..tk::Profile::default()
     });
